@@ -4,36 +4,30 @@ Import ListNotations.
 From WV Require Import C15.Model C15.Proofs.
 Open Scope N_scope.
 
-(* For every list of rules whose patterns are "good" (no backslash, no "[^", four ordinary leading bytes; file patterns likewise
-   escape-free), every section name and every file name: the keyed rule table returns exactly the first rule, in script order,
-   whose section and file patterns POSIX-fnmatch; KEEP flag included. *)
+(* For every list of rules whose patterns are "good" (no backslash, no "[^"; file patterns likewise escape-free), every section
+   name of any length and every file name: the rule table (hash-keyed rules plus the list of rules that cannot be keyed)
+   returns exactly the first rule, in script order, whose section and file patterns POSIX-fnmatch; KEEP flag included.
+   Patterns with fewer than four fixed leading bytes and names shorter than four bytes are covered since the repair in /repo. *)
 Theorem C15_lookup_is_first_match_except_known : forall rs name file,
-  (forall r, In r rs -> good r) -> (4 <= length name)%nat ->
+  (forall r, In r rs -> good r) ->
   lookup rs name file = first_match rs 0 name file.
 Proof. exact good_lookup_is_first_match. Qed.
-Theorem C15_short_names_except_known : forall rs name file,
-  (forall r, In r rs -> good r) -> (length name < 4)%nat ->
-  lookup rs name file = NoRule /\ first_match rs 0 name file = NoRule.
-Proof. exact good_short_name. Qed.
 
 (* the general form, with the semantic side conditions explicit *)
 Theorem C15_lookup_is_first_match_general : forall rs name file,
-  (forall r, In r rs -> key_ok r) ->
-  (forall r, In r rs -> rule_matches r name file = true -> key_eqb (key4 (key_text r)) (key4 name) = true) ->
+  (forall r, In r rs -> keyed r = true -> rule_matches r name file = true -> key_eqb (key4 (key_text r)) (key4 name) = true) ->
   (forall r, In r rs -> rule_matches r name file = spec_matches r name file) ->
-  (4 <= length name)%nat ->
   lookup rs name file = first_match rs 0 name file.
 Proof. exact lookup_is_first_match. Qed.
 
-(* refutations of the unrestricted statement: the three known classes *)
-Theorem C15_short_prefix_refuted :
-  let r := {| pat := [42; 102; 111; 111]; fpat := None; keep := false |} in
-  let name := [46; 120; 102; 111; 111] in
-  first_match [r] 0 name [] = Matched 0 false /\ lookup [r] name [] = NoRule.
-Proof. exact short_prefix_refuted. Qed.
-Theorem C15_short_key_panics :
-  lookup [{| pat := [46; 116; 42]; fpat := None; keep := false |}] [46; 116; 101; 120; 116] [] = Panic.
-Proof. exact short_key_panics. Qed.
+(* the formerly failing class, now matched: `*foo`, `.t*`, a three-byte name *)
+Theorem C15_short_patterns_now_match :
+  lookup [{| pat := [42; 102; 111; 111]; fpat := None; keep := false |}] [46; 120; 102; 111; 111] [] = Matched 0 false /\
+  lookup [{| pat := [46; 116; 42]; fpat := None; keep := true |}] [46; 116; 101; 120; 116] [] = Matched 0 true /\
+  lookup [{| pat := [46; 97; 98]; fpat := None; keep := false |}] [46; 97; 98] [] = Matched 0 false.
+Proof. exact short_patterns_now_match. Qed.
+
+(* refutation of the unrestricted statement: the remaining known class *)
 Theorem C15_backslash_in_glob_refuted :
   let p := [46; 116; 101; 120; 116; 46; 92; 42; 42] in
   let name := [46; 116; 101; 120; 116; 46; 42; 120] in
@@ -41,6 +35,6 @@ Theorem C15_backslash_in_glob_refuted :
 Proof. exact backslash_in_glob_refuted. Qed.
 
 Print Assumptions C15_lookup_is_first_match_except_known.
-Print Assumptions C15_short_names_except_known.
 Print Assumptions C15_lookup_is_first_match_general.
-Print Assumptions C15_short_prefix_refuted.
+Print Assumptions C15_short_patterns_now_match.
+Print Assumptions C15_backslash_in_glob_refuted.
